@@ -229,8 +229,8 @@ def check_slot_idx(ctx: core.Ctx, g: GenInfo):
     w = witness.Witness(ctx)
     n = 0
     for val in (witness.Valuation(True, True), witness.Valuation(True, True, n_state=3, n_control=4, n_calib=2)):
-        ev = minieval.MiniEval({"ast_fragments": w.frag, "cpp": w.cpp}, aliases={"fragments": "ast_fragments"})
-        gen = witness.FakeGenerator(val)
+        ev = w.evaluator()
+        gen = witness.FakeGenerator(val, w)
         header = ev.call_named("cpp", "_header_body", generator=gen)
         classes = {}
 
@@ -333,8 +333,8 @@ def check_slot_idx_src(ctx: core.Ctx, g: GenInfo):
 
 
 def _standard_args(ctx, w: "witness.Witness", ekf: bool, cal: bool, ctl: bool):
-    ev = minieval.MiniEval({"ast_fragments": w.frag, "cpp": w.cpp}, aliases={"fragments": "ast_fragments"})
-    gen = witness.FakeGenerator(witness.Valuation(ctl, cal))
+    ev = w.evaluator()
+    gen = witness.FakeGenerator(witness.Valuation(ctl, cal), w)
     gen.enable_EKF = ekf
     pa = ev.call_named("ast_fragments", "standard_process_args", gen)
     ra = ev.call_named("ast_fragments", "standard_reading_args", gen)
